@@ -17,6 +17,7 @@ const (
 	NStructV       // like NStruct but consumers depend on the value form T_i (only legal when acyclic)
 	NPtrField      // *T_i selected as pointer-to-field from FieldsOf(new(*H_i)) where *H_i is built by PH_i(deps...)
 	NExternal      // a declared type nobody provides (an input of the set; only meaningful for wire show)
+	NFieldOfPtr    // T_i selected (as a value) with FieldsOf(new(*H_i)) where *H_i is built by PH_i(deps...)
 )
 
 // Type shapes of a node's provided type.
@@ -179,6 +180,10 @@ func (g *GraphSpec) Build() (*ir.Program, []*ir.Type) {
 			holder := b.Agg(p, fmt.Sprintf("H%d", i), &ir.Field{Name: "F", T: types[i]}, &ir.Field{Name: "G", T: b.Leaf(p, fmt.Sprintf("G%d", i))})
 			items = append(items, ir.FuncItem(&ir.Func{Pkg: p, Name: fmt.Sprintf("PH%d", i), Params: deps, Out: holder, Err: nd.Err, Cleanup: nd.Cleanup}))
 			items = append(items, ir.FieldsOfItem(holder, false, "F"))
+		case NFieldOfPtr:
+			holder := b.Agg(p, fmt.Sprintf("H%d", i), &ir.Field{Name: "F", T: types[i]})
+			items = append(items, ir.FuncItem(&ir.Func{Pkg: p, Name: fmt.Sprintf("PH%d", i), Params: deps, Out: ir.Ptr(holder), Err: nd.Err, Cleanup: nd.Cleanup}))
+			items = append(items, ir.FieldsOfItem(holder, true, "F"))
 		case NPtrField:
 			holder := b.Agg(p, fmt.Sprintf("H%d", i), &ir.Field{Name: "F", T: types[i].Elem})
 			items = append(items, ir.FuncItem(&ir.Func{Pkg: p, Name: fmt.Sprintf("PH%d", i), Params: deps, Out: ir.Ptr(holder), Err: nd.Err, Cleanup: nd.Cleanup}))
